@@ -15,7 +15,7 @@ LEVEL_TEXT = ("Static structural proof of necessary conditions: (R16.1) the thre
               "and the dataset result; (R16.4) the command-line status is non-zero iff the unmodified validate result "
               "is non-empty; (R16.5) applicable sidecars are collected root->leaf and merged forward with later-wins. "
               "The applicability test on entities and equality with per-file validation are NOT decided.")
-LEVEL_EXTRA = ''
+LEVEL_EXTRA = 'Added after the seeded evaluation: (R16.2) both directory walkers apply the same exclusion test.'
 
 
 def bind(call, callee, skip_self=False):
@@ -196,6 +196,34 @@ def run(ctx):
             ctx.check(ok, "R16.2", w.qualname, lp.ast.iter, loc(w, lp.ast),
                       "the walker %s; files in excluded directories take part in validation" % why,
                       desc="%s prunes `%s` in place each iteration" % (w.short, dirs))
+
+    # the walkers decide "excluded" the same way (same test on the same form of the directory name)
+    shapes = {}
+    for w in walkers:
+        for comp in ast.walk(w.node):
+            if isinstance(comp, ast.ListComp) and len(comp.generators) == 1 and comp.generators[0].ifs and \
+                    isinstance(comp.generators[0].target, ast.Name) and mentions(comp, "exclude_dirs"):
+                var = comp.generators[0].target.id
+                conds = []
+                for cnd in comp.generators[0].ifs:
+                    c2 = ast.parse(norm(cnd), mode="eval").body
+                    for x in ast.walk(c2):
+                        if isinstance(x, ast.Name) and x.id == var:
+                            x.id = "_d"
+                    # the membership test itself, whatever its polarity (keep-list `not in` vs remove-list `in`)
+                    tests = [y for y in ast.walk(c2) if isinstance(y, ast.Compare) and len(y.ops) == 1 and
+                             isinstance(y.ops[0], (ast.In, ast.NotIn)) and mentions(y.comparators[0], "exclude_dirs")]
+                    conds += ["%s in %s" % (norm(y.left), norm(y.comparators[0])) for y in tests] or [norm(c2)]
+                shapes.setdefault(w, []).append(" and ".join(conds))
+    if len(shapes) >= 2:
+        ref_w = sorted(shapes, key=lambda f: f.qualname)[0]
+        for w in sorted(shapes, key=lambda f: f.qualname)[1:]:
+            ctx.check(sorted(shapes[w]) == sorted(shapes[ref_w]), "R16.2", w.qualname, "exclusion test %s" % shapes[w], loc(w, w.node),
+                      "the directory walkers disagree on what 'excluded' means: %s tests `%s`, %s tests `%s` — the file list and the "
+                      "directory dictionary then differ for nested directories, and files of an excluded directory take part" % (
+                          w.short, "; ".join(shapes[w]), ref_w.short, "; ".join(shapes[ref_w])),
+                      desc="%s and %s apply the same exclusion test" % (w.short, ref_w.short))
+    ctx.floor("R16.2", "walkers with an exclusion comprehension", len(shapes), 2)
 
     # ---------------- R16.3
     scope = [dataset.methods.get("validate"), group.methods.get("validate_sidecars"), group.methods.get("validate_datafiles")]
